@@ -297,8 +297,10 @@ _FIXED_LIT = None
 _FIXED_DIST = None
 
 
-def inflate_log(data, window=b'', max_window=None):
+def inflate_log(data, window=b'', max_window=None, stop_at_final=True):
     """Inflate the complete raw-deflate blocks in `data`, with `window` as preceding history.
+       `stop_at_final=False`: a BFINAL=1 block does not end the data; the next block starts at the
+       next byte boundary (a new deflate stream that keeps the window: RFC 7692 7.2.3.4).
        Returns dict(out=bytes, max_dist=int, matches=int, literals=int, final=bool, blocks=[types]).
        Raises InflateError (also when the data ends inside a block).  `max_window`: fail on a
        distance greater than it."""
@@ -385,7 +387,9 @@ def inflate_log(data, window=b'', max_window=None):
                                 hist.append(hist[start + k])
             if last:
                 final = True
-                break
+                if stop_at_final:
+                    break
+                br.align()
     except _EOI:
         raise InflateError('data ends inside a block')
     return dict(out=bytes(hist[base:]), max_dist=max_dist, matches=matches, literals=literals, final=final, blocks=types)
